@@ -85,7 +85,7 @@ class RpcWorld(World):
             "uuid4 (seeded)"]
     PROBES = ["retry_taken", "seq_wrap", "stale_rejected", "reconnect_after_release", "late_reply_discarded",
               "oneway_then_call", "recovered_after_failure", "remote_exception", "batch", "stream_item", "attr",
-              "comm_error", "timeout_error", "stream_exhausted", "bystander", "retry_budget_changed", "client_annotations"]
+              "comm_error", "timeout_error", "stream_exhausted", "bystander", "retry_budget_changed", "client_annotations", "stream_resumed_after_reconnect"]
     RULE = ("plan = (server type, serializer, compression, MAX_RETRIES, proxy timeout, initial sequence number, 3-12 calls, "
             "<= 6 message-level faults keyed by INVOKE ordinal / handshake ordinal, fragmentation; in 20% of the plans some calls "
             "first change the proxy's retry budget (_pyroMaxRetries); 25% of the plans run a second client with its own proxy, "
@@ -112,6 +112,9 @@ class RpcWorld(World):
             c = {"kind": k}
             if k in ("batch", "stream"):
                 c["n"] = rng.randint(1, 3)
+            if k == "stream":
+                c["n"] = rng.randint(1, 4)
+                c["reconnect"] = rng.random() < 0.6     # the consumer reconnects after a failed fetch and goes on
             if switch and calls and rng.random() < 0.3:
                 c["set_retries"] = rng.choice([0, 0, 1, 2])
             calls.append(c)
@@ -405,6 +408,13 @@ class RpcWorld(World):
                             if rr["out"][0] in ("stop", "pyro", "other"):
                                 break
                             # after a communication error the consumer keeps iterating (what a reconnecting client does)
+                            if rr["out"][0] == "comm" and c.get("reconnect"):
+                                sched.sleep(0.05)       # (the server gets to see the old connection go)
+                                try:
+                                    p._pyroReconnect(tries=2)
+                                    ctx.probe("stream_resumed_after_reconnect")
+                                except Exception:  # noqa
+                                    pass
                         it.close()
                         del it
             try:
@@ -496,6 +506,7 @@ class RpcWorld(World):
                             % (rec["i"], rec["kind"], rec["inv"], rec["ret"], val, entry))
 
         prev_failed = False
+        last_fail_ret = -1
         prev_kind = None
         nconn_before = 1
         for rec in calls:
@@ -613,7 +624,10 @@ class RpcWorld(World):
                     else:
                         ctx.probe("stream_exhausted")
             # clause 5: recovery after a failed call
-            if prev_failed and not faults_during and k in ("echo", "tagged", "boom", "batch", "set", "get", "stream-open"):
+            # (no fault since the failed call returned: between the two the consumer of a stream may have reconnected and fetched
+            #  again, and a duplicated reply of such a fetch is a fault whose effect shows in the following call)
+            if prev_failed and not faults_during and not any(last_fail_ret < s < rec["ret"] for s in fired_stamps) \
+                    and k in ("echo", "tagged", "boom", "batch", "set", "get", "stream-open"):
                 good = tag in ("ok", "remote")
                 if good:
                     ctx.probe("recovered_after_failure")
@@ -627,6 +641,8 @@ class RpcWorld(World):
                 prev_failed = (tag == "comm")
             elif tag == "comm":
                 prev_failed = True
+            if tag == "comm":
+                last_fail_ret = rec["ret"]
             prev_kind = k
             nconn_before = rec["conn_after"]
         # the second client is never touched by a fault: every one of its calls returns its own result, computed once
